@@ -345,6 +345,21 @@ func run(r *Rng, tier string, n int) {
 				}
 			}
 		}
+		if i%3 == 0 && len(m.Question) > 0 {
+			// a compressed Pack that fails after some names were written must leave nothing behind
+			// that a later Pack of a message sharing those names could pick up
+			bad := new(dns.Msg)
+			bad.Compress = true
+			bad.Question = append(bad.Question, m.Question...)
+			for _, rr := range m.Answer {
+				bad.Answer = append(bad.Answer, dns.Copy(rr))
+			}
+			bad.Answer = append(bad.Answer, &dns.A{Hdr: dns.RR_Header{Name: strings.Repeat("x", 64) + "." + m.Question[0].Name, Rrtype: dns.TypeA, Class: 1}, A: []byte{1, 2, 3, 4}})
+			if _, err := bad.Pack(); err == nil {
+				Viol("C04/any/overlong-label-packed", "a 64-octet label was packed", nil)
+			}
+			st["failed_pack_then_pack"]++
+		}
 		checkMsg(m, i < 120 || i%40 == 0, "any")
 	}
 	// one record of every type whose RDATA repeats the question name: nothing outside RFC 1035 may be compressed
